@@ -335,7 +335,11 @@ func (vc *VC) callByContract(st *State, x *ast.CallExpr, fc *FuncContract, ci *c
 	}
 	if vc.contract != nil {
 		for _, cs := range vc.contract.Callsites {
-			if fc.Key == cs.Callee || strings.HasSuffix(fc.Key, "/"+cs.Callee) || strings.HasSuffix(fc.Key, "."+cs.Callee) {
+			if len(cs.Requires) == 0 {
+				continue
+			}
+			if callsiteMatches(cs.Callee, fc.Key, callOrd) {
+				cs.used = true
 				own := vc.newSpecCtx(vc.contract, st, vc.entry)
 				vc.bindOwnParams(own)
 				for i, a := range args {
@@ -405,9 +409,10 @@ func (vc *VC) callByContract(st *State, x *ast.CallExpr, fc *FuncContract, ci *c
 	}
 	if vc.contract != nil {
 		for _, cs := range vc.contract.Callsites {
-			if len(cs.Assumes) == 0 || !(fc.Key == cs.Callee || strings.HasSuffix(fc.Key, "/"+cs.Callee) || strings.HasSuffix(fc.Key, "."+cs.Callee)) {
+			if len(cs.Assumes) == 0 || !callsiteMatches(cs.Callee, fc.Key, callOrd) {
 				continue
 			}
+			cs.used = true
 			own := vc.newSpecCtx(vc.contract, st, old)
 			vc.bindOwnParams(own)
 			for i, a := range args {
@@ -884,7 +889,20 @@ func (vc *VC) mutateSliceParam(st *State, ctx *SpecCtx, x *ast.CallExpr, fc *Fun
 				ctx.vars[n] = nv
 			}
 		}
+		args[i] = nv // what the caller's slice holds after the call (callsite clauses see the new contents)
 		return true
 	}
 	return false
+}
+
+
+// callsiteMatches: "Callee" matches every call of that callee, "Callee#k" only the call with ordinal k.
+func callsiteMatches(pat, key string, ord int) bool {
+	if i := strings.LastIndex(pat, "#"); i >= 0 {
+		if pat[i+1:] != fmt.Sprint(ord) {
+			return false
+		}
+		pat = pat[:i]
+	}
+	return key == pat || strings.HasSuffix(key, "/"+pat) || strings.HasSuffix(key, "."+pat)
 }
